@@ -1,6 +1,6 @@
 \* the six spec mutations behind C13 (b)-(d) in one TLC run (checks/c13_sched_stage.py); WeakDetect prints <<"REJ", rule, guard>>
-CONSTANTS WeightVecs = {6}  FeatDiag = TRUE  NPods = 2  PodArchs = {1, 2}
-CONSTANTS Feats = {"plain", "min2", "archMin2", "startup"}
-CONSTANTS Catalogs = {2}  DaemonSets = {2}  MaxTypesSet = {1, 2}  Policies = {"Strict"}  Weak = "c13"
+CONSTANTS WeightVecs = {6}  FeatDiag = TRUE  NPods = 2  PodArchs = {1, 2, 8}
+CONSTANTS Feats = {"plain", "min2", "archMin2", "teamX", "startup"}
+CONSTANTS Catalogs = {2}  DaemonSets = {2, 3}  MaxTypesSet = {1, 2}  Policies = {"Strict"}  Weak = "c13"
 SPECIFICATION Spec
 INVARIANTS WeakDetect
